@@ -98,6 +98,42 @@ def in_domain(tl):
         return False
 
 
+def reuse_clause(tl, tags, rank):
+    import copy
+
+    from simfile.ssc import SSCSimfile
+    from simfile.timing import Beat, BeatValue, TimingData
+    from simfile.timing.engine import TimingEngine
+
+    td = TimingData(SSCSimfile(string=simfile_text(tl)))
+    first = TimingEngine(td)
+    first.time_at(Beat(1))
+    tl_b = copy.deepcopy(tl)
+    b0 = D(tl["bpms"][0][1])
+    nb = b0 + 17 if b0 + 17 <= 2000 else b0 - 17
+    tl_b["bpms"][0][1] = str(nb)
+    td.bpms[0] = BeatValue(td.bpms[0].beat, nb)
+    last = max([k for n in ("bpms", "stops", "delays") for k, _ in tl[n]] + [k + l for k, l in tl["warps"]])
+    tl_b["stops"] = list(tl_b["stops"]) + [[last + 24, "0.5"]]
+    td.stops.append(BeatValue(Beat(last + 24, 48), D("0.5")))
+    second = TimingEngine(td)
+    mb = Model(tl_b)
+    n = 0
+    for b in mb.probe_beats():
+        B = frac_beat(b)
+        for tag in (tags[0], tags[5], tags[6]):
+            n += 1
+            got = float(second.time_at(B, tag))
+            exp = float(mb.time(b, rank[tag]))
+            need(
+                abs(got - exp) <= TOL,
+                f"an engine built from a TimingData object edited in place (first BPM -> {nb}, stop appended at tick {last + 24}) after an "
+                f"earlier engine had been built from it reports time_at({b}, {tag.name}) = {got!r}, exact {exp!r}; original timeline {tl}",
+            )
+        need(second.bpm_at(B) == mb.bpm_decimal(b), f"engine built from the edited TimingData object: bpm_at({b}) = {second.bpm_at(B)!r}; original timeline {tl}")
+    return n
+
+
 def check(case):
     from simfile.timing.engine import EventTag
 
@@ -142,6 +178,18 @@ def check(case):
             f"bpm_at({b}) = {bp!r}, expected {m.bpm_decimal(b)!r}; timeline {tl}",
         )
 
+    # answers must not depend on the order of the queries (no state carried from one call to the next): ask again in
+    # reverse order, and with the tags descending
+    for b in reversed(probes):
+        B = frac_beat(b)
+        for tag in reversed(tags):
+            evals += 1
+            again = float(eng.time_at(B, tag))
+            need(
+                again == got_times[(b, rank[tag])],
+                f"time_at({b}, {tag.name}) answered {got_times[(b, rank[tag])]!r} first and {again!r} when asked again in reverse order; timeline {tl}",
+            )
+
     # metamorphic: offset shift by a dyadic d
     dn = case.get("shift", 3)
     d = F(dn, 8)
@@ -180,6 +228,10 @@ def check(case):
                     f"inserting redundant BPM changes at ticks {ins} changed time_at({b},{tag.name}): {ref!r} -> {g3!r}; timeline {tl}",
                 )
             need(eng3.bpm_at(B) == eng.bpm_at(B), f"redundant BPM changes at ticks {ins} changed bpm_at({b}); timeline {tl}")
+
+    # a new engine built from the same TimingData object after the object was edited in place must answer for the
+    # edited data (no state may be carried over from the first engine)
+    evals += reuse_clause(tl, tags, rank)
 
     labs = sorted(m.coincidences())
     return Verdict(nontrivial=bool(labs), labels=labs + (["redundant-bpm"] if ins else []), evals=evals, key=tl)
